@@ -159,6 +159,21 @@ func needsEscape(comps []pathComp) bool {
 
 // normComp: a path component is text ("0" addresses element 0 of an array as well as member "0" of an object).
 func normComp(cur JNode, c pathComp) pathComp {
+	if c.Query != "" {
+		// a first-match query is evaluated on the document as it is NOW (earlier matchers may have replaced the record)
+		var want string
+		if _, err := fmt.Sscanf(c.Query, "id==%s", &want); err == nil && cur.K == "arr" {
+			for i, kid := range cur.Kids {
+				if kid.K != "obj" {
+					continue
+				}
+				if id, ok := kid.at([]pathComp{{Key: "id"}}); ok && id.K == "num" && id.Num == want {
+					return pathComp{Idx: i, IsIdx: true}
+				}
+			}
+		}
+		return pathComp{Idx: 1 << 30, IsIdx: true} // selects nothing
+	}
 	if cur.K == "arr" && !c.IsIdx {
 		if i, err := strconv.Atoi(c.Key); err == nil && i >= 0 && strconv.Itoa(i) == c.Key {
 			return pathComp{Idx: i, IsIdx: true}
